@@ -454,6 +454,24 @@ func main() {
 		facts++
 	}
 	fmt.Fprintf(&sb, "/-- Browse and BrowseAll apply the walk result's flags and release the record (aply_browsing_flags, freerec)\n    for every visited record before BR_ABORT can end the browse -/\ndef browseAppliesBeforeAbort : Bool := %v\n", order)
+	// lock discipline: nothing that runs under the shared lock writes (locks.go)
+	var all []*vtrans.File
+	for _, rel := range []string{"lib/others/qdb/db.go", "lib/others/qdb/db_disk.go", "lib/others/qdb/index.go", "lib/others/qdb/index_disk.go", "lib/others/qdb/membind.go"} {
+		f, err := vtrans.Parse(rel)
+		if err != nil {
+			die(err)
+		}
+		all = append(all, f)
+	}
+	lockOK, nLock, lockBad, err := lockDiscipline(db, all)
+	if err != nil {
+		die(err)
+	}
+	if lockBad == "" {
+		lockBad = "none"
+	}
+	fmt.Fprintf(&sb, "/-- no method of DB that takes only the shared lock (db.Mutex.RLock) writes: assigns through a selector / index /\n    pointer, deletes from a map or operates on a file, itself or through the package's methods it calls\n    (%d methods use db.Mutex; under RLock and writing: %s) -/\ndef sharedLockOnlyAroundReads : Bool := %v\n", nLock, lockBad, lockOK)
+	facts += nLock
 	sb.WriteString("\nend GocoinV.Gen.QdbFacts\n")
 	out := vlib.Root() + "/lean/GocoinV/Gen/QdbFacts.lean"
 	os.Remove(out)
